@@ -40,9 +40,12 @@ theories/Viz.vos theories/Viz.vok theories/Viz.required_vos: theories/Viz.v theo
 theories/Table.vo theories/Table.glob theories/Table.v.beautified theories/Table.required_vo: theories/Table.v theories/Base.vo theories/Fringe.vo theories/DP.vo theories/Cache.vo theories/Dom.vo theories/Mdd.vo theories/Viz.vo
 theories/Table.vio: theories/Table.v theories/Base.vio theories/Fringe.vio theories/DP.vio theories/Cache.vio theories/Dom.vio theories/Mdd.vio theories/Viz.vio
 theories/Table.vos theories/Table.vok theories/Table.required_vos: theories/Table.v theories/Base.vos theories/Fringe.vos theories/DP.vos theories/Cache.vos theories/Dom.vos theories/Mdd.vos theories/Viz.vos
-theories/Solver.vo theories/Solver.glob theories/Solver.v.beautified theories/Solver.required_vo: theories/Solver.v theories/Base.vo theories/Fringe.vo theories/DP.vo theories/Cache.vo theories/Dom.vo theories/Mdd.vo
-theories/Solver.vio: theories/Solver.v theories/Base.vio theories/Fringe.vio theories/DP.vio theories/Cache.vio theories/Dom.vio theories/Mdd.vio
-theories/Solver.vos theories/Solver.vok theories/Solver.required_vos: theories/Solver.v theories/Base.vos theories/Fringe.vos theories/DP.vos theories/Cache.vos theories/Dom.vos theories/Mdd.vos
+theories/Solver.vo theories/Solver.glob theories/Solver.v.beautified theories/Solver.required_vo: theories/Solver.v theories/Base.vo theories/Fringe.vo theories/FringeProofs.vo theories/Fringe2.vo theories/DP.vo theories/Cache.vo theories/Dom.vo theories/Mdd.vo
+theories/Solver.vio: theories/Solver.v theories/Base.vio theories/Fringe.vio theories/FringeProofs.vio theories/Fringe2.vio theories/DP.vio theories/Cache.vio theories/Dom.vio theories/Mdd.vio
+theories/Solver.vos theories/Solver.vok theories/Solver.required_vos: theories/Solver.v theories/Base.vos theories/Fringe.vos theories/FringeProofs.vos theories/Fringe2.vos theories/DP.vos theories/Cache.vos theories/Dom.vos theories/Mdd.vos
+theories/SolverProofs.vo theories/SolverProofs.glob theories/SolverProofs.v.beautified theories/SolverProofs.required_vo: theories/SolverProofs.v theories/Base.vo theories/Fringe.vo theories/DP.vo theories/Cache.vo theories/Dom.vo theories/Mdd.vo theories/Solver.vo
+theories/SolverProofs.vio: theories/SolverProofs.v theories/Base.vio theories/Fringe.vio theories/DP.vio theories/Cache.vio theories/Dom.vio theories/Mdd.vio theories/Solver.vio
+theories/SolverProofs.vos theories/SolverProofs.vok theories/SolverProofs.required_vos: theories/SolverProofs.v theories/Base.vos theories/Fringe.vos theories/DP.vos theories/Cache.vos theories/Dom.vos theories/Mdd.vos theories/Solver.vos
 theories/Width.vo theories/Width.glob theories/Width.v.beautified theories/Width.required_vo: theories/Width.v theories/Base.vo
 theories/Width.vio: theories/Width.v theories/Base.vio
 theories/Width.vos theories/Width.vok theories/Width.required_vos: theories/Width.v theories/Base.vos
